@@ -534,6 +534,12 @@ func (rg *registry) SetNumber(regi int, vali LNumber) { // +inline-start
 	}
 } // +inline-end
 
+// canHold reports whether n more values fit, growing included.
+func (rg *registry) canHold(n int) bool {
+	required := rg.top + n
+	return required <= cap(rg.array) || required <= rg.maxSize
+}
+
 func (rg *registry) IsFull() bool {
 	return rg.top >= cap(rg.array)
 }
